@@ -81,7 +81,7 @@ func baseValid(p Prof, variant int) *MClaims {
 }
 
 func TestC01_Sweep(t *testing.T) {
-	st := NewStats("C01", "TestC01_Sweep", "exhaustive single-claim sweeps on an otherwise valid set (3 backgrounds x 2 profiles): every byte-string length 0..80 for impl-id, boot-seed, nonce, inst-id, component value/signer; inst-id type byte 0..255 at length 33; lifecycle range ends and outside neighbours; complete single-edit neighbourhood of both certification-reference forms plus every same-byte-length variant with non-ASCII decimal digits. Non-trivial = the swept value differs from the canned 32-byte/0x3000 values; distinct = (profile, background, claim, value class)")
+	st := NewStats("C01", "TestC01_Sweep", "exhaustive single-claim sweeps on an otherwise valid set (3 backgrounds x 2 profiles): every byte-string length 0..80 (and 256+k, 512+k, 65536+k for the valid sizes k) for impl-id, boot-seed, nonce, inst-id, component value/signer; inst-id type byte 0..255 at length 33; lifecycle range ends and outside neighbours; complete single-edit neighbourhood of both certification-reference forms plus every same-byte-length variant with non-ASCII decimal digits. Non-trivial = the swept value differs from the canned 32-byte/0x3000 values; distinct = (profile, background, claim, value class)")
 	st.Exhaustive = true
 	defer st.Flush(t)
 	run := func(m *MClaims, key string) {
@@ -108,7 +108,13 @@ func TestC01_Sweep(t *testing.T) {
 	for _, p := range []Prof{P1, P2} {
 		for variant := 0; variant < 3; variant++ {
 			pre := fmt.Sprintf("%s/v%d/", p, variant)
+			lengths := []int{}
 			for n := 0; n <= 80; n++ {
+				lengths = append(lengths, n)
+			}
+			// lengths whose low 8 / 16 bits look like a valid size
+			lengths = append(lengths, 256, 256+8, 256+32, 256+33, 256+48, 256+64, 512+32, 65536+32, 65536+33, 65536+64)
+			for _, n := range lengths {
 				buf := make([]byte, n)
 				for i := range buf {
 					buf[i] = byte(n + i)
@@ -268,6 +274,13 @@ func TestC01_Product(t *testing.T) {
 	rapid.Check(t, func(t *rapid.T) {
 		p := drawProf(t)
 		m := GenAny(t, p)
+		if rapid.IntRange(0, 9).Draw(t, "zerocanon") == 0 {
+			// a plain struct value (no constructor): CanonicalProfile unset
+			m.ZeroCanon = true
+			if genBool.Draw(t, "zerocanon.noprofile") {
+				m.Profile = nil
+			}
+		}
 		msg, skipped := c01Check(m)
 		if skipped {
 			st.Class("unrepresentable")
